@@ -128,7 +128,7 @@ FV_READ = Ob("C18-B4", "R-EQUIV", "FileView::read truncates to end-current and a
 BISECTION = Ob("C18-I1", "R-CASES", "index_chroms::do_index: every probe outcome records the probed line and recurses on both sides, or narrows the interval to (prev, mid]; arithmetic checked over all small (prev, upper)", SL.ob_bisection)
 CHUNKER = Ob("C18-F1", "R-SYMX", "split_file_into_chunks_by_size: chunks start at 0, end after a full line, are contiguous, cover the file", SL.ob_chunker)
 VIEWS = Ob("C18-F2", "R-EVAL", "parallel source: each chromosome reads FileView[index[i].offset, index[i+1].offset | EOF)", SL.ob_views)
-GROUPING = Ob("C18-G1", "R-FLOW", "index_chroms: adjacent duplicates collapsed; ungrouped file detected by sorting a copy BY NAME and comparing lengths", SL.ob_index_grouping)
+GROUPING = Ob("C18-G1", "R-EVAL", "index_chroms: adjacent duplicates collapsed; ungrouped file detected by sorting a copy BY NAME and comparing lengths", SL.ob_index_grouping)
 GEN_COUNT = Ob("C19-T1", "R-TABLE", "bed_autosql declares 3 + e fields for every e (FIELDS table, two loops, one declaration per iteration)", AQ.ob_generated_count)
 SCHEMA_FLOW = Ob("C19-F1", "R-FLOW+R-EVAL", "schema flow: generated from the first line's rest or file verbatim; library default BED3; fieldCount from the parsed declaration", AQ.ob_schema_flow, floor=3)
 GEN_TOKENS = Ob("C19-G1", "R-TABLE", "every field type the generator emits is an arm of FieldType::try_parse; sized form parsed", AQ.ob_generator_tokens)
